@@ -6,8 +6,8 @@ conditions (or / and / logical selects / xor true) are decomposed into their ato
 splits, `select` instructions are resolved per path, conditions whose operands are constants on the path are evaluated,
 and boolean return values (zext/sext of a condition, selects) are split into their outcomes.  This makes the obligations
 independent of whether a test is written as nested ifs, `a || b`, a status flag, a conditional expression or a switch."""
-from .vflow import Canon
-from .guards import NEG
+from .vflow import Canon, byte_extent, may_overlap
+from .guards import NEG, involution_form
 from .ir import INT
 from .build import AnalysisBroken
 
@@ -31,6 +31,7 @@ class Path:
                 # constants (and null) on the right-hand side, whichever way the source wrote the comparison
                 if (INT.match(a) or a == 'null') and not (INT.match(b) or b == 'null'):
                     a, b, pred = b, a, SWAPPED[pred]
+                pred, a, b = involution_form(pred, a, b)
                 out.append((pred, a, b, at.width, at.ins))
         return out
     def __repr__(self):
@@ -209,9 +210,21 @@ def enumerate_paths(prog, fn, limit=20000, split_returns=True, split_stores=True
         # block looks like).  Only the most recent store is remembered; any other store or call forgets it.
         for ins in b.insts:
             if ins.op == 'store':
+                # a store forgets what was remembered about memory it may overlap (another member of the same object, or memory
+                # of a different object allocated here, is left alone)
+                ext = byte_extent(prog, fn, ins.ops[1], ins.ty)
                 for key in [k_ for k_ in st.env if isinstance(k_, tuple) and k_[0] == 'mem']:
-                    del st.env[key]
-                st.env[('mem', C.val(ins.ops[1], st.env))] = (ins.ops[0], ins.ty)
+                    if may_overlap(fn, ext, st.env[key][2] if len(st.env[key]) > 2 else None):
+                        del st.env[key]
+                st.env[('mem', C.val(ins.ops[1], st.env))] = (ins.ops[0], ins.ty, ext)
+            elif ins.op == 'call' and (ins.callee or '').startswith(('@llvm.memset', '@llvm.memcpy', '@llvm.memmove')):
+                # writes its destination only: [dest, dest + length) when the length is a constant, the whole object otherwise
+                ext = byte_extent(prog, fn, ins.ops[0], 'i8')
+                if ext is not None:
+                    ext = (ext[0], ext[1], int(ins.ops[2])) if INT.match(ins.ops[2]) else (ext[0], 0, 1 << 40)
+                for key in [k_ for k_ in st.env if isinstance(k_, tuple) and k_[0] == 'mem']:
+                    if may_overlap(fn, ext, st.env[key][2] if len(st.env[key]) > 2 else None):
+                        del st.env[key]
             elif ins.op == 'call' and not (ins.callee or '').startswith('@llvm.dbg'):
                 for key in [k_ for k_ in st.env if isinstance(k_, tuple) and k_[0] == 'mem']:
                     del st.env[key]
